@@ -770,6 +770,12 @@ impl Xot {
             return self.remove(node);
         }
         let first_child = first_child.unwrap();
+        // without a parent the children have no place to go
+        if self.parent(node).is_none() {
+            return Err(Error::InvalidOperation(
+                "Cannot unwrap an element with children that has no parent".to_string(),
+            ));
+        }
         // there is guaranteed to be a last child if there's a first child
         let last_child = self.last_child(node).unwrap();
         self.remove_element(node);
